@@ -284,23 +284,14 @@ func Explore(cfg Config, run *ev.Run) Stats {
 		path []int
 	}
 	deadlineHit := false
-	for depth := 0; depth < cfg.MaxDepth && len(frontier) > 0; depth++ {
-		work := make(chan item, len(frontier))
-		for _, p := range frontier {
-			work <- item{p}
-		}
-		close(work)
-		var next [][]int
-		var wg sync.WaitGroup
-		nw := cfg.Workers
-		if nw > len(frontier) {
-			nw = len(frontier)
-		}
-		aborted := false
-		for wi := 0; wi < nw; wi++ {
-			wg.Add(1)
-			go func() {
-				defer wg.Done()
+	// persistent worker pool (spawned in parallel, reused across levels)
+	pool := make([]*worker, cfg.Workers)
+	{
+		var swg sync.WaitGroup
+		for i := range pool {
+			swg.Add(1)
+			go func(i int) {
+				defer swg.Done()
 				w, err := spawn(cfg.Scenario)
 				if err != nil {
 					mu.Lock()
@@ -308,8 +299,38 @@ func Explore(cfg Config, run *ev.Run) Stats {
 					mu.Unlock()
 					return
 				}
-				defer func() { w.kill() }()
-				id := 0
+				pool[i] = w
+			}(i)
+		}
+		swg.Wait()
+	}
+	defer func() {
+		for _, w := range pool {
+			if w != nil {
+				w.kill()
+			}
+		}
+	}()
+	reqID := 0
+	for depth := 0; depth < cfg.MaxDepth && len(frontier) > 0; depth++ {
+		if os.Getenv("VERIF_VERBOSE") != "" {
+			fmt.Fprintf(os.Stderr, "[bfs %s] depth %d frontier %d states %d t=%.1fs\n", cfg.Scenario, depth, len(frontier), len(seen), time.Since(start).Seconds())
+		}
+		work := make(chan item, len(frontier))
+		for _, p := range frontier {
+			work <- item{p}
+		}
+		close(work)
+		var next [][]int
+		var wg sync.WaitGroup
+		aborted := false
+		for wi := 0; wi < len(pool); wi++ {
+			if pool[wi] == nil {
+				continue
+			}
+			wg.Add(1)
+			go func(wi int) {
+				defer wg.Done()
 				for it := range work {
 					if cfg.Deadline > 0 && time.Since(start) > cfg.Deadline {
 						mu.Lock()
@@ -317,7 +338,11 @@ func Explore(cfg Config, run *ev.Run) Stats {
 						mu.Unlock()
 						continue
 					}
-					id++
+					mu.Lock()
+					reqID++
+					id := reqID
+					mu.Unlock()
+					w := pool[wi]
 					resp, err := w.call(request{ID: id, Path: it.path, Only: -1})
 					if err != nil {
 						// worker died: isolate op by op on fresh workers
@@ -341,7 +366,14 @@ func Explore(cfg Config, run *ev.Run) Stats {
 							}
 							resp.Results = append(resp.Results, r2.Results...)
 						}
-						w, _ = spawn(cfg.Scenario)
+						nw, e4 := spawn(cfg.Scenario)
+						if e4 != nil {
+							mu.Lock()
+							st.HarnessErrors = append(st.HarnessErrors, "respawn: "+e4.Error())
+							mu.Unlock()
+							return
+						}
+						pool[wi] = nw
 					}
 					mu.Lock()
 					if resp.Err != "" {
@@ -387,7 +419,7 @@ func Explore(cfg Config, run *ev.Run) Stats {
 					}
 					mu.Unlock()
 				}
-			}()
+			}(wi)
 		}
 		wg.Wait()
 		if aborted {
@@ -448,4 +480,13 @@ func Report(run *ev.Run, prefix string, cfg Config, st Stats) {
 	for _, s := range st.SamplePaths {
 		run.Sample(map[string]interface{}{"scenario": cfg.Scenario, "ops": s})
 	}
+}
+
+// Make instantiates a registered scenario (for profiling and replay).
+func Make(name string) Scenario {
+	mk := registry[name]
+	if mk == nil {
+		return nil
+	}
+	return mk()
 }
